@@ -1,6 +1,6 @@
 (** Property C20 — the theorems the check counts as obligations.  Nothing but
     statements closed by [exact] and [Print Assumptions]. *)
-From HS Require Import Base.Prelude C20.Model C20.Bloom C20.Counting C20.TopK.
+From HS Require Import Base.Prelude C20.Model C20.Bloom C20.Counting C20.TopK C20.Reservoir C20.Merkle.
 Local Open Scope Z_scope.
 
 (** Bloom: every item added with a positive count is reported present — for
@@ -88,3 +88,64 @@ Theorem c20_topk_estimate_with_error : forall k, 0 < k -> forall s x,
   (tk_find x (t_cnt st) = None -> n = 0 /\ true_count x s <= e).
 Proof. exact topk_estimate_with_error. Qed.
 Print Assumptions c20_topk_estimate_with_error.
+
+(** Reservoir: min(k, n) items, all of them stream items, no stream occurrence
+    held twice — every capacity, stream (with counts) and RNG draw sequence. *)
+Theorem c20_reservoir_size : forall k, 0 < k -> forall s ds,
+  let st := fst (r_stream k s (resv_empty, ds)) in
+  Z.of_nat (length (r_items st)) = Z.min k (stream_total s) /\ r_total st = stream_total s.
+Proof. exact reservoir_size. Qed.
+Print Assumptions c20_reservoir_size.
+
+Theorem c20_reservoir_holds_stream_items : forall k s ds y,
+  In y (r_items (fst (r_stream k s (resv_empty, ds)))) -> exists c, In (y, c) s /\ 0 < c.
+Proof. exact reservoir_holds_stream_items. Qed.
+Print Assumptions c20_reservoir_holds_stream_items.
+
+Theorem c20_reservoir_distinct_occurrences : forall k xs ds,
+  NoDup xs -> NoDup (r_items (fst (r_stream k (singles xs) (resv_empty, ds)))).
+Proof. exact reservoir_distinct_occurrences. Qed.
+Print Assumptions c20_reservoir_distinct_occurrences.
+
+(** merge: size and membership hold (PARTIAL) ... *)
+Theorem c20_reservoir_merge_size_partial : forall k, 0 < k -> forall a b ds,
+  rinv k a -> rinv k b -> valid_draws ds ->
+  let m := fst (r_merge k a b ds) in
+  rinv k m /\ r_total m = r_total a + r_total b /\
+  (forall y, In y (r_items m) -> In y (r_items a) \/ In y (r_items b)).
+Proof. exact reservoir_merge_size. Qed.
+Print Assumptions c20_reservoir_merge_size_partial.
+
+(** ... but the merged reservoir may hold one stream occurrence twice
+    (REFUTED; known finding C20-reservoir-merge-with-replacement). *)
+Theorem c20_reservoir_merge_distinct_refuted : ~ reservoir_merge_distinct_statement.
+Proof. exact reservoir_merge_distinct_refuted. Qed.
+Print Assumptions c20_reservoir_merge_distinct_refuted.
+
+(** Merkle tree, for every pair of maps (strictly sorted association lists),
+    under injective, domain-separated leaf/inner hashes. *)
+Theorem c20_merkle_diff_covers : forall (H : Type) (hl : Z -> Z -> H) (hc : H -> H -> H) (heq : H -> H -> bool),
+  (forall k v k' v', hl k v = hl k' v' -> k = k' /\ v = v') ->
+  (forall a b a' b', hc a b = hc a' b' -> a = a' /\ b = b') ->
+  (forall k v a b, hl k v <> hc a b) ->
+  (forall x y, heq x y = true <-> x = y) ->
+  forall la lb, ssorted la -> ssorted lb -> forall k,
+  d_get k la <> d_get k lb ->
+  exists r, In r (mt_diff hl hc heq (m_of la) (m_of lb)) /\ fst r <= k <= snd r.
+Proof. exact @merkle_diff_covers. Qed.
+Print Assumptions c20_merkle_diff_covers.
+
+Theorem c20_merkle_diff_empty_iff_equal : forall (H : Type) (hl : Z -> Z -> H) (hc : H -> H -> H) (heq : H -> H -> bool),
+  (forall k v k' v', hl k v = hl k' v' -> k = k' /\ v = v') ->
+  (forall a b a' b', hc a b = hc a' b' -> a = a' /\ b = b') ->
+  (forall k v a b, hl k v <> hc a b) ->
+  (forall x y, heq x y = true <-> x = y) ->
+  forall la lb, ssorted la -> ssorted lb ->
+  (mt_diff hl hc heq (m_of la) (m_of lb) = [] <-> la = lb).
+Proof. exact @merkle_diff_empty_iff_equal. Qed.
+Print Assumptions c20_merkle_diff_empty_iff_equal.
+
+Theorem c20_merkle_sort_sorted : forall d, NoDup (map fst d) ->
+  ssorted (m_sort d) /\ forall x, In x (m_sort d) <-> In x d.
+Proof. exact merkle_sort_sorted. Qed.
+Print Assumptions c20_merkle_sort_sorted.
